@@ -24,6 +24,7 @@ func (m *Mutex) Lock() {
 		vsched.Yield()
 		if !m.locked {
 			m.locked = true
+			vsched.Log()
 			return
 		}
 		vsched.Block(m)
@@ -35,7 +36,7 @@ func (m *Mutex) Unlock() {
 		m.real.Unlock()
 		return
 	}
-	vsched.Yield()
+	vsched.Step()
 	m.locked = false
 	vsched.Unblock(m)
 }
@@ -44,7 +45,7 @@ func (m *Mutex) TryLock() bool {
 	if !vsched.Active() {
 		return m.real.TryLock()
 	}
-	vsched.Yield()
+	vsched.Step()
 	if m.locked {
 		return false
 	}
@@ -67,6 +68,7 @@ func (m *RWMutex) Lock() {
 		vsched.Yield()
 		if !m.writer && m.readers == 0 {
 			m.writer = true
+			vsched.Log()
 			return
 		}
 		vsched.Block(m)
@@ -78,7 +80,7 @@ func (m *RWMutex) Unlock() {
 		m.real.Unlock()
 		return
 	}
-	vsched.Yield()
+	vsched.Step()
 	m.writer = false
 	vsched.Unblock(m)
 }
@@ -92,6 +94,7 @@ func (m *RWMutex) RLock() {
 		vsched.Yield()
 		if !m.writer {
 			m.readers++
+			vsched.Log()
 			return
 		}
 		vsched.Block(m)
@@ -103,7 +106,7 @@ func (m *RWMutex) RUnlock() {
 		m.real.RUnlock()
 		return
 	}
-	vsched.Yield()
+	vsched.Step()
 	m.readers--
 	vsched.Unblock(m)
 }
